@@ -172,6 +172,13 @@ def stepClauses (op : String) (_j : Json) (pre post : Core) (msgs : List Json) :
                      | none => false) then some s!"C01.bind-node-reserved-for-other {key}@{node}{if isSwap then " (replacement)" else ""}"
             else if !(fitInStd (some n.available) (some i.res)) then some s!"C01.bind-does-not-fit {key}@{node} ask={showRes i.res} available={showRes n.available}"
             else none),
+    -- C01: available can only become (more) negative by an externally forced change: not by a scheduling cycle, a
+    -- timer, a release or the confirmation of a placeholder swap
+    fun _ => if !(op == "schedule" || op == "release" || op == "ph-timeout" || op == "state-timeout") then none else
+      post.nodes.findSome? (fun n => match pre.findNode n.id with
+        | none => none
+        | some pn => n.available.findSome? (fun (k, v) =>
+            if v < 0 && v < Res.getD pn.available k then some s!"C01.available-negative-unforced {n.id}/{k} {Res.getD pn.available k} → {v}" else none)),
     -- C02: a scheduling cycle creates no new over-max usage
     fun _ => if op != "schedule" then none else
       post.queues.findSome? (fun q => match pre.findQueue q.path with
@@ -221,7 +228,10 @@ def coreStep (st : CoreSt) (j : Json) : Except String (CoreSt × String) := do
   -- the shim view. A request that adds something is applied first, then the core's messages; a release / removal
   -- request is applied after them: the core answers it by announcing exactly what it released.
   let removal := op == "release" || op == "app-remove" || (op == "node" && (jStr (fldD j "action" (.str ""))).toOption.getD "" == "decommission")
-  let sendAll (v : ShimView) : ShimView := (shimSendMsgs op j).foldl (fun v m => (v.step m).getD v) v
+  -- a request the core rejects is not part of the shim's view: a rejected new ask / placement was never accepted, a
+  -- rejected update of an outstanding ask leaves that ask as it was
+  let allocRejected := op == "alloc" && msgs.any (fun m => (jStr (fldD m "t" (.str ""))).toOption.getD "" == "alloc-rejected")
+  let sendAll (v : ShimView) : ShimView := if allocRejected then v else (shimSendMsgs op j).foldl (fun v m => (v.step m).getD v) v
   let v1 := if removal then st.shim else sendAll st.shim
   let (v2', protoErr) := msgs.foldl (fun (acc : ShimView × Option String) m =>
       match acc.2, shimRecvMsg m with
